@@ -45,7 +45,7 @@ var errTable = map[string][]errSpec{
 	"C04": {{"C04.a", []string{"store.(*Store).Get", "store.(*Store).get", "store.(*Store).Has", "store.(*Store).Head", "store.(*Store).Tail", "store.(*Store).Append", "store.(*heightIndexer).HashByHeight"}, 7, "a lookup returning nil returned a stored header"}},
 	"C05": {{"C05.a", []string{"p2p.(*Exchange).GetRangeByHeight", "p2p.(*session).getRangeByHeight", "p2p.(*session).processResponses", "p2p.(*session).verify", "p2p.processResponses"}, 3, "a range returned without error was verified"}},
 	"C06": {{"C06.a", []string{"store.(*Store).flush", "store.writeHeaderHashTo", "store.indexTo", "store.(*Store).readByKey", "store.(*Store).init", "store.(*Store).Start", "store.(*Store).Stop", "store.(*Store).Sync"}, 8, "a flush/start returning nil wrote/loaded everything"}},
-	"C07": {{"C07.c", []string{"sync.(*syncStore).Append", "sync.(*Syncer).processHeaders", "sync.(*Syncer).requestHeaders", "sync.(*Syncer).doSync"}, 4, "a sync round reporting success stored what it fetched"}},
+	"C07": {{"C07.c", []string{"sync.(*syncStore).Append", "sync.(*Syncer).processHeaders", "sync.(*Syncer).requestHeaders", "sync.(*Syncer).doSync", "sync.(*Syncer).Start"}, 4, "a sync round reporting success stored what it fetched"}},
 	"C08": {{"C08.c", []string{"store.(*Store).DeleteRange", "store.(*Store).deleteRangeRaw", "store.(*Store).deleteSequential", "store.(*Store).deleteParallel", "store.(*Store).deleteSingle", "store.(*Store).setTail", "store.(*Store).setHead", "store.(*Store).wipe"}, 10, "DeleteRange returning nil means every deletion and pointer step succeeded"}},
 	"C10": {{"C10.d", []string{"p2p.(*ExchangeServer).handle"}, 2, "the server answers OK only when the store read succeeded"}},
 	"C11": {{"C11.b", []string{"p2p.(*Subscriber).extractHeader"}, 1, "a header handed to the verifier was decoded and validated"}},
@@ -63,6 +63,7 @@ var errExceptions = []errFlowException{
 	{"p2p.sendMessage", "invoke:SetDeadline", "a failed SetDeadline is only logged: the request proceeds without a stream deadline, the request context still bounds it"},
 	{"sync.(*Syncer).networkHead", "syncHead[H]).Head#1", "by design (C19.b failed-request-keeps-head): when the request for a more recent head fails, the current subjective head is returned with a nil error"},
 	{"sync.(*Syncer).networkHead", "incomingNetworkHead", "by design (C19.b): a refused soft-failing head leaves the subjective head unchanged, returned with a nil error"},
+	{"sync.(*Syncer).Start$1", "subjectiveTail", "by design: the gossip validator triggers pruning lazily; a failed tail renewal is logged and does not invalidate the head that was just verified and adopted"},
 	{"sync.(*Syncer).subjectiveHead", "localHead#1", "the `expired` case is tested first; localHead returns the zero header with every error and a zero header is never expired (C19.d zero-not-expired), so a failed read cannot take that branch"},
 }
 
